@@ -39,7 +39,7 @@ def _tight_radii(t):
 
 
 def _cases(tier):
-    return st.tuples(MG.manager_cases(tier, tasks=("detection", "tracking"), allow_map=False), st.booleans(), st.booleans()).map(_tight_radii)
+    return st.tuples(MG.manager_cases(tier, tasks=("detection", "tracking"), allow_map=False), st.sampled_from([True, True, False]), st.booleans()).map(_tight_radii)
 
 
 def _tracking_cases(tier):
